@@ -347,7 +347,8 @@ impl SortedUintVec {
 
     /// Get two consecutive values efficiently
     pub fn get2(&self, index: usize) -> Result<(u64, u64)> {
-        if index + 1 >= self.size {
+        // `index >= self.size` first: index + 1 overflows for usize::MAX
+        if index >= self.size || index + 1 >= self.size {
             return Err(ZiporaError::invalid_data("index out of bounds"));
         }
 
